@@ -100,6 +100,23 @@ def history(ctx, dag, cells, fill_bits, fill_refs, t, ops=None):
     ctx.case(('hist', fill_bits, fill_refs, tuple(ops)), sample={'fill': [fill_bits, fill_refs], 'ops': [o[:40] for o in ops[:5]]})
     b = Builder()
     S.exec_builder(cells, pre, b)
+    # where the builder comes from must not matter: a fresh one, or one derived from a cell / slice holding the same content
+    # (the cell built on a TvmBitarray as the library does, or on a plain bitarray as a caller may)
+    origin = ('new', 'cell.to_builder', 'plain-cell.to_builder', 'slice.to_builder')[(t + fill_bits + fill_refs) % 4]
+    try:
+        if origin == 'cell.to_builder':
+            b = b.end_cell().to_builder()
+        elif origin == 'plain-cell.to_builder':
+            from pytoniq_core.boc.cell import Cell
+            from bitarray import bitarray
+            b = Cell(bitarray(b.bits.to01()), list(b.refs)).to_builder()
+        elif origin == 'slice.to_builder':
+            b = b.end_cell().begin_parse().to_builder()
+    except Exception as e:
+        ctx.fail('origin:' + origin, f'a builder could not be derived through {origin}: {type(e).__name__}', inp, repr(e), 'builder')
+        return
+    inp['origin'] = origin
+    ctx.count('origin:' + origin)
     flags = ''
     for tok in ops:
         ub, ur = len(b.bits), len(b.refs)
@@ -275,14 +292,8 @@ def replay(ctx, payload):
     if 'ops' in inp and 'prefill' in inp:
         dag = [(k, b, tuple(r)) for k, b, r in inp['dag']]
         cells = G.lib_build(dag)
-        from pytoniq_core.boc.builder import Builder
-        b = Builder()
-        S.exec_builder(cells, ([f'b:{"0" * inp["prefill"][0]}'] if inp['prefill'][0] else []) + ['r:0'] * inp['prefill'][1], b)
-        for tok in inp['ops']:
-            ub, ur = len(b.bits), len(b.refs)
-            want = fits(tok, cells, ub, ur, dag)
-            f = S.exec_builder(cells, [tok], b)[0]
-            if len(b.bits) > 1023 or len(b.refs) > 4:
-                ctx.fail('capacity:' + tok.split(':')[0], 'builder exceeds capacity (replay)', inp, [len(b.bits), len(b.refs)], None)
-            if want is not None and (f == '1') != want:
-                ctx.fail(('refused:' if want else 'accepted:') + tok.split(':')[0], 'store accept/refuse mismatch (replay)', inp, f, want)
+        fb, fr = inp['prefill']
+        for t in range(4):                       # every builder origin ...
+            for form in range(0, 6, 1 if any(o.startswith('bit:') for o in inp['ops']) else 6):     # ... and store_bit argument form
+                S._BIT_FORM[0] = form
+                history(ctx, dag, cells, fb, fr, t, ops=list(inp['ops']))
